@@ -17,6 +17,7 @@ const (
 	ALLOWED_ABS_ERROR_RELEASE_RATE = 1e-4
 	ESSENTIALLY_ZERO_RELEASE_RATE = 1e-4
 	MAX_SUBTIMESTEPS = 600000
+	ESSENTIALLY_EMPTY_VOLUME = 1e-9
 )
 
 /* OW-SPEC
@@ -276,6 +277,12 @@ func storageWaterBalance(rainfallTS, petTS, inflowTS, demandTS, targetMinimumVol
 			if volume < 0 {
 				// report()
 				panic(err)
+			}
+			if volume < ESSENTIALLY_EMPTY_VOLUME {
+				// a release that follows the volume drains the store geometrically: the last drop leaves as outflow
+				// instead of being stepped down into denormal numbers (where rounding makes the trial volume negative)
+				outflowVolume += volume
+				volume = 0
 			}
 
 			if volume > volCurveMax {
